@@ -1,7 +1,7 @@
 (* C05 -- Binomial schedules perform the minimal possible number of forward steps
    Property theorems only: each proof is one application of a lemma proved in Proofs/, followed by Print Assumptions. *)
 From Coq Require Import ZArith List Bool.
-From CS Require Inst GW2 RevCost BinomDP.
+From CS Require Inst GW2 RevCost BinomDP RevConv RevBridge4 RevolveRun RevolveGW Opt0Table.
 From CS Require Import Actions NAdvance Multistage Exec Sched RunFacts Projections BasicInv MultistageRun AllocTotal TLBridge MixBridge.
 Import ListNotations.
 Open Scope Z_scope.
@@ -72,26 +72,47 @@ Proof. exact (@BinomDP.E_le). Qed.
 Print Assumptions C05_dp_is_min.
 End M_C05_dp_is_min.
 
-(* PARTIAL (Revolve): forward work of the generated op list = (l+1) + step-count DP, independent of uf, ub; table correctness is a hypothesis; clause "no executable schedule whatsoever does better" is not proved (DESIGN.md 6 C05) *)
-Module M_C05_revolve_work_partial.
-Import RevCost.
-Theorem C05_revolve_work_partial :
-  forall uf ub : Z,
+(* Revolve on the extracted model, every cost vector with uf > 0: once the schedule is exhausted the reference executor has carried out exactly TC N s forward steps -- the same number as Multistage (for either trajectory tj), i.e. N + E N s *)
+Module M_C05_revolve_forward_total.
+Import RevolveRun.
+Theorem C05_revolve_forward_total :
+  forall (tj : NAdvance.traj) (N ram disk uf ub wd rd : Z) (k : nat),
+         1 <= N ->
+         0 <= ram ->
+         (2 <= N -> 1 <= ram) ->
          0 < uf ->
-         forall (opt0 : list (list Z)) (M L : Z) (P : Z -> Z -> Z),
-         (forall m l : Z,
-          0 <= m <= M ->
-          0 <= l <= L -> 1 <= m \/ l = 0 -> RevGen.tget opt0 m l = RevGen.GOk ((l + 1) * ub + uf * P m l)) ->
-         (forall m : Z, P m 0 = 0) ->
-         (forall m : Z, 1 <= m -> P m 1 = 1) ->
-         (forall l : Z, 0 <= l -> 2 * P 1 l = l * (l + 1)) ->
-         (forall m l j : Z, 2 <= m -> 2 <= l -> 1 <= j <= l - 1 -> P m l <= j + P (m - 1) (l - j) + P m (j - 1)) ->
-         (forall m l : Z,
-          2 <= m -> 2 <= l -> exists j : Z, 1 <= j <= l - 1 /\ P m l = j + P (m - 1) (l - j) + P m (j - 1)) ->
-         forall (fuel : nat) (l cm : Z) (ops : list RevBlk.op),
-         RevGen.revolve fuel opt0 uf l cm = RevGen.GOk ops ->
-         0 <= l <= L -> 0 <= cm <= M -> (1 <= l -> 1 <= cm) -> work ops = l + 1 + P cm l.
-Proof. exact (@RevCost.revolve_work). Qed.
-Print Assumptions C05_revolve_work_partial.
-End M_C05_revolve_work_partial.
+         exists L : list Ops.op,
+           RevConv.sequence RevConv.KRevolve N ram disk uf ub wd rd = Actions.Ok L /\
+           (let
+            '(s', m, ls) :=
+             Sched.run_ops (RevBridge4.rev_xparams N ram)
+               {|
+                 Sched.ob := Sched.ORevF RevConv.KRevolve N ram disk (RevConv.init_r L); Sched.started := false
+               |} Sched.mon0 (repeat Sched.Next k) in
+             RunFacts.mon_ok m /\
+             RunFacts.no_raise ls /\
+             (Sched.is_exhausted s' = true -> Exec.fwd_total (Exec.cnt (Sched.mx m)) = Inst.TC tj N ram)).
+Proof. exact (@RevolveRun.revolve_forward_total_gw). Qed.
+Print Assumptions C05_revolve_forward_total.
+End M_C05_revolve_forward_total.
+
+(* the step-count DP behind get_opt_0_table (min over first splits) is the Griewank-Walther DP value E (l+1) m *)
+Module M_C05_revolve_dp_is_gw.
+Import RevolveGW.
+Theorem C05_revolve_dp_is_gw :
+  forall l m : nat, (1 <= m)%nat -> Opt0Table.P (Z.of_nat m) (Z.of_nat l) = BinomDP.E (S l) m.
+Proof. exact (@RevolveGW.P_eq_E). Qed.
+Print Assumptions C05_revolve_dp_is_gw.
+End M_C05_revolve_dp_is_gw.
+
+(* PARTIAL: optimality is proved within the family of bisection schedules (E is the minimum of the DP over all first splits, and both classes attain it); that NO executable schedule whatsoever with s restart checkpoints does better (Griewank-Walther 2000, Prop. 1) is not proved *)
+Module M_C05_global_optimality_partial.
+Import BinomDP.
+Theorem C05_global_optimality_partial :
+  forall n s i : nat,
+         (2 <= s)%nat ->
+         (s <= n - 1)%nat -> (1 <= i < n)%nat -> E n s <= Z.of_nat i + E i s + E (n - i) (s - 1).
+Proof. exact (@BinomDP.E_le). Qed.
+Print Assumptions C05_global_optimality_partial.
+End M_C05_global_optimality_partial.
 
